@@ -38,6 +38,8 @@ class Ctx:
         self.assumptions = []
         self.notes = []
         self.fns_analysed = set()
+        self.cfg = "dev"      # compilation configuration of self.lib (thorough re-runs on "rel")
+        self.extra_cov = {}
 
     @property
     def bin(self):
@@ -72,8 +74,11 @@ class Ctx:
             self.bad(rule, key, where, bad_detail if bad_detail is not None else detail)
         return cond
 
-    def floor(self, rule, what, n, floor):
-        """fail closed when a rule sees fewer instances than were counted by hand"""
+    def floor(self, rule, what, n, floor, rel=None):
+        """fail closed when a rule sees fewer instances than were counted by hand (`rel`: the
+        count confirmed for the release-like configuration, where it differs)"""
+        if self.cfg == "rel" and rel is not None:
+            floor = rel
         if n < floor:
             self.bad(rule, "anchor/%s" % what, "",
                      "rule ranges over %d instance(s) of %s; at least %d were confirmed on the "
